@@ -10,7 +10,8 @@ class C17(pure.Spec):
     module = "Properties.C17"
     theorems = ["C17_reaches_iff", "C17_skip_accepts_any_certificate", "C17_verify_needs_chain_and_name",
                 "C17_client_ca_requires_issued_cert", "C17_no_client_ca_never_asks", "C17_established_undisturbed",
-                "C17_handshake_sees_latest"]
+                "C17_handshake_sees_latest", "C17_sni_overrides", "C17_hostname_overrides_url",
+                "C17_url_host_by_default", "C17_name_case_iff"]
     crate = "app"
     binary = "vh-app"
     design_ref = "DESIGN.md §4 C17"
@@ -21,6 +22,9 @@ class C17(pure.Spec):
             "CertificateRequest (probe client with a recording certificate resolver). Plus random identity-swap scripts "
             "(handshake / reload_tls_identity with good or unreadable files / reuse of an established connection): "
             "certificate seen by each new handshake, result of each reload, established connections still answering. "
+            "Name selection: the real client (client_main_inner -> ws_connect::handshake) for URL host {IP, name} x "
+            "--hostname {none, the certificate's name, another} x --tls-server-name {same three} x skip-verify (36 "
+            "configurations, exhaustively) against the TLS listener: reached iff a local connection through the tunnel is echoed. "
             "Compared exactly with Tls/Model.v. Cells = configuration / script shape.")
     assumptions = ["rustls, webpki and aws-lc-rs decide chain validity, name matching and signatures; the model only says "
                    "which verifier is configured for which arguments",
@@ -37,6 +41,8 @@ class C17(pure.Spec):
         t = case.split()
         if t[1] == "1":
             return "matrix/" + "/".join(t[2:7])
+        if t[1] == "3":
+            return "name/" + "/".join(t[2:6])
         return "reload/" + "".join(x for x in t[4:24])
 
     def classify(self, case, impl, model):
@@ -48,6 +54,10 @@ class C17(pure.Spec):
             if i[:1] == ["0"] and m[:1] == ["1"]:
                 return True, "valid-peer-refused", "a correctly authenticated pair cannot connect"
             return True, "certificate-request", "the server asks / does not ask for a client certificate contrary to its configuration"
+        if t[1] == 3:
+            if i[:1] == ["1"]:
+                return True, "name-not-checked", "the client reaches a server whose certificate does not cover the requested name (--tls-server-name over --hostname over URL host)"
+            return True, "right-name-refused", "the client refuses a server whose certificate covers the requested name"
         return True, "identity-swap", "a handshake after a reload sees the wrong identity, a failed reload changed it, or an established connection was disturbed"
 
     def describe(self, case):
@@ -55,6 +65,10 @@ class C17(pure.Spec):
         if t[1] == 1:
             return "%s, name %s, skip-verify %s, %s, server client CA %s" % (
                 SC.get(t[2]), "matches" if t[3] == 0 else "differs", bool(t[4]), CC.get(t[5]), bool(t[6]))
+        if t[1] == 3:
+            nm = {0: "none", 1: "localhost (the certificate's name)", 2: "other.example"}
+            return "URL host %s, --hostname %s, --tls-server-name %s, skip-verify %s" % (
+                "127.0.0.1" if t[2] == 0 else "localhost", nm.get(t[3]), nm.get(t[4]), bool(t[5]))
         return "initial identity cert %d client-CA %d, events %s (0 handshake | 1 good cert ca reload | 2 k use)" % (t[2], t[3], t[4:])
 
 
